@@ -271,12 +271,18 @@ type FaultPlan struct {
 	Pos   int
 	Kind  string // API: crash-before crash-after 404 409 exists 410 422 500 neterr lost; hook: 500 429 refused stall garbage crash
 	Armed bool
-	count int
-	Fired bool
+	// Again: the same fault hits once more, at the next in-sync interaction of the same
+	// method and path after the first one (a request that fails twice in a row, a
+	// process that dies twice at the same spot)
+	Again    bool
+	count    int
+	Fired    bool
+	firedKey string
+	Refired  bool
 }
 
 // planFault returns the fault kind to inject for the next in-sync interaction.
-func (w *World) planFault(typ byte) string {
+func (w *World) planFault(typ byte, key string) string {
 	if w.Plan == nil {
 		return ""
 	}
@@ -287,6 +293,12 @@ func (w *World) planFault(typ byte) string {
 	defer func() { w.Plan.count++ }()
 	if w.Plan.count == w.Plan.Pos && !w.Plan.Fired {
 		w.Plan.Fired = true
+		w.Plan.firedKey = key
+		return w.Plan.Kind
+	}
+	if w.Plan.Again && w.Plan.Fired && !w.Plan.Refired && key == w.Plan.firedKey {
+		w.Plan.Refired = true
+		w.FaultsFired["plan:again"]++
 		return w.Plan.Kind
 	}
 	return ""
@@ -1208,7 +1220,7 @@ func (w *World) StepOnce(p *Policy) bool {
 	case "serve":
 		fault := ""
 		if a.req.Sync >= 0 {
-			switch k := w.planFault('A'); k {
+			switch k := w.planFault('A', a.req.Method+" "+a.req.Path); k {
 			case "":
 			case "crash-before":
 				w.FaultsFired["plan:crash-before"]++
@@ -1252,7 +1264,7 @@ func (w *World) StepOnce(p *Policy) bool {
 	case "hook":
 		fault := ""
 		if a.hook.Sync >= 0 {
-			switch k := w.planFault('H'); k {
+			switch k := w.planFault('H', a.hook.URL); k {
 			case "":
 			case "crash":
 				w.FaultsFired["plan:hook-crash"]++
